@@ -473,6 +473,53 @@ def outcome_of(result):
     return ("ran", json.dumps(desc, sort_keys=True))
 
 
+def witness_view(result):
+    """what a witness expectation records of a result: per step printed lines, outcome, error kind
+    and messages (addresses normalised)"""
+    if "abort" in result:
+        return [{"abort": result["abort"]["why"]}]
+    view = []
+    for st in result.get("steps", []):
+        e = {"k": st.get("k"), "res": st.get("res")}
+        if "out" in st:
+            e["out"] = [norm(t) for t in st["out"]]
+        if st.get("res") == "err":
+            e["kind"] = st.get("kind")
+            e["msgs"] = [norm(m) for m in st.get("msgs", [])]
+        if st.get("res") == "panic":
+            e["panic"] = st.get("panic_msg")
+        view.append(e)
+    return view
+
+
+def replay_witnesses(ck, cfgs, opts_by_cfg=None):
+    """regression cases: the pinned inputs of fixed defects (witness/<property>-*.json) must still
+    behave as recorded on every given build configuration, with silent monitors"""
+    wdir = os.path.join(VERIF, "witness")
+    names = sorted(f for f in os.listdir(wdir) if f.startswith(ck.prop + "-") and f.endswith(".json"))
+    for cfg in cfgs:
+        cases = []
+        ws = []
+        for f in names:
+            w = json.load(open(os.path.join(wdir, f)))
+            opts = (opts_by_cfg or {}).get(cfg, {"gc": "always", "quarantine": 1, "audit": 1} if cfg.startswith("hook") else {})
+            cases.append(mk_case("w:" + w["name"], [tuple(s) for s in w["steps"]], opts, [tuple(m) for m in w["mods"]]))
+            ws.append(w)
+        if not cases:
+            continue
+        for w, res in zip(ws, run_batch(cfg, cases, timeout=300)):
+            ck.evaluations += 1
+            ck.count("witnesses_replayed")
+            view = witness_view(res)
+            if view != w["expect"]:
+                ck.violation("WitnessRegressed(%s)" % w["name"], {"witness": w["name"], "what": w["what"], "config": cfg,
+                                                                   "expected": w["expect"], "observed": view,
+                                                                   "steps": w["steps"], "mods": w["mods"]})
+            for ev in res.get("events", []):
+                ck.violation("WitnessRegressed(%s)" % w["name"], {"witness": w["name"], "what": w["what"], "config": cfg,
+                                                                   "event": ev, "steps": w["steps"], "mods": w["mods"]})
+
+
 def panics_of(result):
     out = []
     if result.get("harness_panic") or result.get("vm_new") == "panic" or result.get("drop") == "panic":
